@@ -21,6 +21,10 @@ NOT_DECIDED = [
 
 
 def run(ctx):
+    from ..rules import extra as _X4b
+    _X4b.rule_info_attribute_normalised(ctx)
+    from ..rules import extra as _X4
+    _X4.rule_sibling_formatters(ctx)
     ML.rule_F5b(ctx)
     ML.rule_F4f(ctx)
     ML.rule_to_v1(ctx)
